@@ -209,8 +209,8 @@ def configs_for(example, full=True, k=0):
 def check_c16(tier):
     chk = Check("C16", tier, "other")
     rng = Rng(chk.seed ^ 0xC16)
-    import check_kp
-    pr = check_proofs("C16u", check_kp.PINNED)
+    import check_kp, check_misp
+    pr = check_proofs("C16u+C16m", check_kp.PINNED + check_misp.PINNED)
     proof_coverage(chk, pr, "make theories/Props/C16u.vo && coqc theories/Props/C16u.v (Print Assumptions scanned)")
     chk.assumptions += [
         "oracle = OCaml extraction of coq/theories/ExSpec.v (exhaustive enumeration; no DP); extract/exdriver.ml re-parses the "
@@ -384,13 +384,28 @@ def check_c16(tier):
     if isinstance(kp, tuple):
         kpstats, kpdis = kp
         chk.cov["knapsack_model_correspondence"] = kpstats
-        if kpdis and not failures:
+        if kpdis:
             # the end-to-end runs above ARE the search for a failing input: none was found
             kind, msg, ctx = kpdis[0]
             chk.violation("unproved", "knapsack example: " + msg, dict(ctx, theorem="kp_C01 (Props/C16u.v) is about a model that no longer matches ddo/examples/knapsack/main.rs",
                                                                          other_disagreements=[m for _, m, _ in kpdis[1:6]]))
     else:
         chk.cov["knapsack_model_correspondence"] = kp
+    # ---- 6. misp: the Coq MODEL of the example (Misp.v, theorems C16_misp_*) vs the example's own source (through its own parser)
+    mp = check_misp.misp_correspondence(chk, Rng(chk.seed ^ 0x16B), tier)
+    if isinstance(mp, tuple):
+        mpstats, mpdis = mp
+        chk.cov["misp_model_correspondence"] = mpstats
+        concrete = [d for d in mpdis if d[0] == "optimum"]
+        if concrete:
+            kind, msg, ctx = concrete[0]
+            chk.violation("property", "misp example: " + msg, dict(ctx, other=[m for _, m, _ in concrete[1:6]]), cls="misp-model-optimum")
+        elif mpdis:
+            kind, msg, ctx = mpdis[0]
+            chk.violation("unproved", "misp example: " + msg, dict(ctx, theorem="the C16_misp_* theorems (Props/C16m.v) are about a model that no longer matches ddo/examples/misp/main.rs",
+                                                                    other_disagreements=[m for _, m, _ in mpdis[1:6]]))
+    else:
+        chk.cov["misp_model_correspondence"] = mp
     for ex in per:
         per[ex]["distinct_optima"] = len(per[ex]["distinct_optima"])
     total_runs = sum(p["runs"] for p in per.values())
